@@ -953,7 +953,7 @@ def c17_cases(tier, seed):
         else:
             base = gen_emacs(rng, rng.randint(4, 20), True, extra=("Tab", "C-r", "C-g", "Esc", "C-z", "C-l")) if mode == "emacs" \
                 else gen_vi(rng, rng.randint(4, 20), True)
-            if mode == "vi" and rng.random() < 0.3:
+            if mode == "vi" and rng.random() < 0.5:
                 # operator scripts (counts on both sides, char searches, put / undo / repeat after each operator) on typed text
                 t = " ".join(rng.choice(["a", "bb", "c,d", "é日", "x_y"]) for _ in range(rng.randint(3, 7)))
                 base = list(t) + gen_vi_ops(rng, t)[:-1]
